@@ -507,6 +507,8 @@ class Translator:
         self.rules_fired = {}
         self.log = []
         self.value_types = {'Square'}
+        self.uf_tables = {}        # C table name -> number of indices: reads become uninterpreted-function applications UF_<name>(i, ..)
+        self.variadic_or = set()   # (class, name): f(a, b, ...) == f(a) | f(b) | ...  (pinned variadic templates)
         self.tsubst = {}       # template parameter substitution during a pull
         self.aliases = {}      # `using X = ColorTraits<..>` aliases during a pull
         self.colortraits = None
@@ -677,6 +679,9 @@ class Translator:
                 else:
                     raise ExtractError('%s: constructor initialises unknown member %s' % (f.cname, nm))
         text = body
+        text, n = re.subn(r'for\s*\(\s*Square\s+(\w+)\s*:\s*AllSquares\(\)\s*\)', r'for (Square \1 = 0; \1 != 64; ++\1)', text)
+        if n:
+            self.log.append('%s: range-for over AllSquares rewritten %d times (pinned axiom)' % (f.cname, n))
         for (pat, rep, cnt) in f.rules:
             text, n = re.subn(pat, rep, text)
             self._fired(f.cname, pat, n, cnt)
@@ -734,6 +739,10 @@ class Translator:
                 out.append(text)
                 i = j2
                 prev_sig = ')'
+                continue
+            if tx == '::' and prev_sig not in (')',) and (i == 0 or toks[i - 1][0] != 'id'):
+                # global-scope qualifier  ::name
+                i += 1
                 continue
             out.append(tx)
             prev_sig = tx
@@ -824,6 +833,17 @@ class Translator:
         return table.get(key)
 
     def _emit_call(self, fdict, suffix, recv_text, recv_ty, args_toks, what):
+        anyf = next(iter(fdict.values()))
+        if (anyf.cls, anyf.name) in self.variadic_or and len(anyf.params) == 1:
+            args = self._split_args(args_toks)
+            if len(args) > 1:
+                parts = []
+                ty = None
+                for a in args:
+                    t1, ty = self._emit_call(fdict, suffix, recv_text, recv_ty, a, what)
+                    parts.append(t1)
+                self.rules_fired['variadic_or'] = self.rules_fired.get('variadic_or', 0) + 1
+                return '(' + ' | '.join(parts) + ')', ty
         if suffix not in fdict:
             if '' in fdict and len(fdict) == 1:
                 suffix = ''
@@ -987,7 +1007,8 @@ class Translator:
                                            'ptrtext' if (is_method and not self.cur_cls.by_value) else None,
                                            toks[k + 1:e], qual)
                 return self._post(toks, e + 1, text, ty)
-            if len(names) > 1 or (first not in self.env and first not in KEYWORDS and not first.startswith('__CPROVER') and first not in self.passthrough_calls()):
+            is_field = self.cur_cls is not None and (first in self.cur_cls.fields or first in self.cur_cls.statics)
+            if len(names) > 1 or (first not in self.env and not is_field and first not in KEYWORDS and not first.startswith('__CPROVER') and first not in self.passthrough_calls()):
                 raise ExtractError('%s: call of unknown function %s/%d' % (self.cur.cname, qual, nargs))
         # plain identifiers
         if len(names) == 1:
@@ -1008,6 +1029,8 @@ class Translator:
                 if first in ci.statics:
                     cn, fty = ci.statics[first][0], ci.statics[first][1]
                     return self._post(toks, j, cn, ('lv', fty))
+            if first in self.uf_tables:
+                return self._post(toks, j, first, None)
             if first in KEYWORDS or first in SCALARS or first in self.typemap or first.startswith('__CPROVER') \
                or first in self.passthrough_idents():
                 return j, self.typemap.get(first, first)
@@ -1045,9 +1068,12 @@ class Translator:
                         return v
                 return None
             r = table.get((keyname, nargs, targs))
-            if r is None and not targs:
-                # a template instantiated implicitly (e.g. sqAttacked(pos,sq) overloads) is not looked up here
-                pass
+            if r is None and nargs > 1:
+                r1 = table.get((keyname, 1, targs))
+                if r1 is not None:
+                    f1 = next(iter(r1.values()))
+                    if (f1.cls, f1.name) in self.variadic_or:
+                        r = r1
             return r
         if len(names) == 1:
             if self.cur_cls is not None:
@@ -1101,6 +1127,8 @@ class Translator:
                     raise ExtractError('%s: member access .%s on expression of unknown type: %s' % (self.cur.cname, mname, text))
                 if t == '->':
                     text = '(*' + text + ')'
+                    if tyname.endswith('*'):
+                        tyname = tyname[:-1].strip()
                 if tyname.startswith('atomic<') or tyname.startswith('RelaxedShared<'):
                     # std::atomic load/store with relaxed order -> plain access (A-ATOMIC)
                     e = self._match(toks, k3)
@@ -1125,10 +1153,12 @@ class Translator:
                 if tyname not in self.classes:
                     raise ExtractError('%s: member access .%s on non-class type %s (%s)' % (self.cur.cname, mname, tyname, text))
                 ci = self.classes[tyname]
-                if k3 < n and toks[k3][1] == '(':
+                if k3 < n and toks[k3][1] == '(' and not (mname in ci.fields and not any(k_[0] == mname for k_ in ci.methods)):
                     e = self._match(toks, k3)
                     nargs = len(self._split_args(toks[k3 + 1:e]))
                     fdict = ci.methods.get((mname, nargs, False))
+                    if fdict is None and nargs > 1 and (tyname, mname) in self.variadic_or:
+                        fdict = ci.methods.get((mname, 1, False))
                     if fdict is None:
                         raise ExtractError('%s: unknown method %s::%s/%d' % (self.cur.cname, tyname, mname, nargs))
                     text, ty = self._emit_call(fdict, '', text, None, toks[k3 + 1:e], tyname + '::' + mname)
@@ -1143,6 +1173,30 @@ class Translator:
                     j = k2 + 1
                     continue
                 raise ExtractError('%s: unknown member %s::%s' % (self.cur.cname, tyname, mname))
+            if t == '(' and ty and ty[1] in self.classes and any(k_[0] == 'operator()' for k_ in self.classes[ty[1]].methods):
+                e = self._match(toks, k)
+                nargs = len(self._split_args(toks[k + 1:e]))
+                fdict = self.classes[ty[1]].methods.get(('operator()', nargs, False))
+                if fdict is None:
+                    raise ExtractError('%s: no operator()/%d on %s' % (self.cur.cname, nargs, ty[1]))
+                text, ty = self._emit_call(fdict, '', text, None, toks[k + 1:e], ty[1] + '::operator()')
+                j = e + 1
+                continue
+            if t == '[' and text in self.uf_tables:
+                idxs = []
+                kk = k
+                for _ in range(self.uf_tables[text]):
+                    kk = self._next_sig(toks, kk)
+                    if kk >= n or toks[kk][1] != '[':
+                        raise ExtractError('%s: table %s used with too few indices' % (self.cur.cname, text))
+                    e = self._match(toks, kk)
+                    idxs.append(self.tr_tokens(toks[kk + 1:e]).strip())
+                    kk = e + 1
+                self.rules_fired['uf_reads'] = self.rules_fired.get('uf_reads', 0) + 1
+                text = 'UF_%s(%s)' % (text, ', '.join(idxs))
+                ty = None
+                j = kk
+                continue
             if t == '[':
                 e = self._match(toks, k)
                 idx = self.tr_tokens(toks[k + 1:e])
